@@ -2474,12 +2474,29 @@ class Trimesh(Geometry3D):
                 matrix,
             )[0]
 
+        if has_rotation:
+            # normals transform by the inverse-transpose of the linear part
+            # which is only the same as the linear part for pure rotations
+            linear = matrix[:3, :3]
+            normal_matrix = np.eye(4)
+            try:
+                normal_matrix[:3, :3] = np.linalg.inv(linear).T
+            except np.linalg.LinAlgError:
+                self._cache.delete("face_normals")
+                self._cache.delete("vertex_normals")
+            # angle-weighted vertex normals only survive a similarity transform
+            gram = np.dot(linear, linear.T)
+            if not util.allclose(
+                gram, _IDENTITY3 * gram.trace() / 3.0, 1e-8 * gram.trace()
+            ):
+                self._cache.delete("vertex_normals")
+
         # preserve face normals if we have them stored
         if has_rotation and "face_normals" in self._cache:
             # transform face normals by rotation component
             self._cache.cache["face_normals"] = util.unitize(
                 transformations.transform_points(
-                    self.face_normals, matrix=matrix, translate=False
+                    self.face_normals, matrix=normal_matrix, translate=False
                 )
             )
 
